@@ -31,6 +31,10 @@ struct Tl {
     /// the inner call never waits: every poll uses up the task's cooperative budget (see
     /// `InnerState::busy`), so the caller's task is runnable all the time while time passes
     busy: bool,
+    /// readiness of the wrapped service belongs to the instance that was polled: a clone taken
+    /// from a ready instance needs 10 ms of its own (see InnerState::clone_of_ready_needs_ms). A
+    /// limiter that readies another instance inside the call has that wait inside its deadline
+    instance_readiness: bool,
 }
 
 struct X {
@@ -95,7 +99,7 @@ impl Scenario for Tl {
         "C06"
     }
     fn label(&self) -> String {
-        format!("timelimiter cancel={} per_request={} callers={} select_seed={}{}", self.cancel, self.per_request, self.callers, self.seed, if self.flag_first { " builder_order=flag_first" } else if self.scale != 1 { " x101" } else if self.busy { " busy-inner" } else if self.late_ticks > 0 { " late-polls" } else { "" })
+        format!("timelimiter cancel={} per_request={} callers={} select_seed={}{}", self.cancel, self.per_request, self.callers, self.seed, if self.flag_first { " builder_order=flag_first" } else if self.scale != 1 { " x101" } else if self.busy { " busy-inner" } else if self.late_ticks > 0 { " late-polls" } else if self.instance_readiness { " readiness-belongs-to-the-polled-instance" } else { "" })
     }
     fn callers(&self) -> usize {
         self.callers
@@ -111,6 +115,9 @@ impl Scenario for Tl {
     }
     fn init(&self, w: &mut World) -> X {
         w.inner.lock().unwrap().busy = self.busy;
+        if self.instance_readiness {
+            w.inner.lock().unwrap().clone_of_ready_needs_ms = Some(10);
+        }
         let inner = GatedInner::new(w.inner.clone());
         let start: Box<dyn FnMut(Req) -> CallerFut> = if self.per_request {
             fn per_req(r: &Req) -> Duration {
@@ -391,21 +398,23 @@ fn configs(tier: Tier) -> Vec<Tl> {
             for seed in seeds {
                 // thorough: three callers under the first select! seed
                 let callers = if tier == Tier::Thorough && seed == 1 { 3 } else { 2 };
-                v.push(Tl { flag_first: false, cancel, per_request, callers, max_ticks: tier.pick(4, 6), max_drops: 1, seed, scale: 1, late_ticks: 0, busy: false });
+                v.push(Tl { flag_first: false, cancel, per_request, callers, max_ticks: tier.pick(4, 6), max_drops: 1, seed, scale: 1, late_ticks: 0, busy: false, instance_readiness: false });
             }
             // the same with the builder calls in the other order
-            v.push(Tl { flag_first: true, cancel, per_request, callers: 2, max_ticks: tier.pick(4, 5), max_drops: 1, seed: 1, scale: 1, late_ticks: 0, busy: false });
+            v.push(Tl { flag_first: true, cancel, per_request, callers: 2, max_ticks: tier.pick(4, 5), max_drops: 1, seed: 1, scale: 1, late_ticks: 0, busy: false, instance_readiness: false });
             // timeouts in the seconds range (2.02 s / 3.03 s on a 1.01 s grid)
-            v.push(Tl { flag_first: false, cancel, per_request, callers: 2, max_ticks: tier.pick(4, 5), max_drops: 1, seed: 1, scale: 101, late_ticks: 0, busy: false });
+            v.push(Tl { flag_first: false, cancel, per_request, callers: 2, max_ticks: tier.pick(4, 5), max_drops: 1, seed: 1, scale: 101, late_ticks: 0, busy: false, instance_readiness: false });
             // an inner call that uses up the task's cooperative budget in every poll: the task
             // is always runnable, time passes between its polls.  (Cancelling mode only: the
             // other mode runs the inner call in a task of its own, and under the paused clock
             // virtual time only moves when the runtime has nothing left to run.)
             if cancel {
-                v.push(Tl { flag_first: false, cancel, per_request, callers: tier.pick(1, 2), max_ticks: tier.pick(3, 4), max_drops: 0, seed: 1, scale: 1, late_ticks: tier.pick(3, 4), busy: true });
+                v.push(Tl { flag_first: false, cancel, per_request, callers: tier.pick(1, 2), max_ticks: tier.pick(3, 4), max_drops: 0, seed: 1, scale: 1, late_ticks: tier.pick(3, 4), busy: true, instance_readiness: false });
             }
+            // readiness that belongs to the polled instance
+            v.push(Tl { flag_first: false, cancel, per_request, callers: 2, max_ticks: tier.pick(4, 5), max_drops: 1, seed: 1, scale: 1, late_ticks: 0, busy: false, instance_readiness: true });
             // a late executor
-            v.push(Tl { flag_first: false, cancel, per_request, callers: 2, max_ticks: tier.pick(4, 5), max_drops: 0, seed: 1, scale: 1, late_ticks: 2, busy: false });
+            v.push(Tl { flag_first: false, cancel, per_request, callers: 2, max_ticks: tier.pick(4, 5), max_drops: 0, seed: 1, scale: 1, late_ticks: 2, busy: false, instance_readiness: false });
         }
     }
     v
